@@ -269,4 +269,96 @@ def exIs : List Ins := [
   { off := 10, op := "RETURN_VALUE", arg := 0, isTarget := false }]
 example : blockRanges (fromBytecode exT exIs) = [(0, 4), (4, 8), (8, 12)] := by decide
 
+
+/-! ## Instruction retrieval (`get_instructions`)
+
+The loop hands out exactly the instructions of the block's range: an offset is returned iff the
+map knows it, it lies in `[begin, end)` and is a whole number of code units after `begin`; the
+result is strictly increasing, so no instruction is handed out twice. With `ranges_cover` (the
+ranges tile `[0, last)`) every instruction of the stream is handed out by exactly one block. -/
+
+theorem mem_getInstrs (offs : List Nat) (e : Nat) :
+    ∀ (f it o : Nat), e ≤ it + 2 * f →
+      (o ∈ getInstrs offs f it e ↔ o ∈ offs ∧ it ≤ o ∧ o < e ∧ (o - it) % 2 = 0) := by
+  intro f
+  induction f with
+  | zero =>
+    intro it o hf
+    simp only [getInstrs, List.not_mem_nil, false_iff]
+    omega
+  | succ f ih =>
+    intro it o hf
+    unfold getInstrs
+    split
+    · rename_i hlt
+      rw [List.mem_append, ih (it + 2) o (by omega)]
+      constructor
+      · rintro (h | ⟨h1, h2, h3, h4⟩)
+        · split at h
+          · rename_i hc
+            simp only [List.mem_singleton] at h
+            subst h
+            exact ⟨by simpa using hc, Nat.le_refl _, hlt, by simp⟩
+          · simp at h
+        · exact ⟨h1, by omega, h3, by omega⟩
+      · rintro ⟨h1, h2, h3, h4⟩
+        by_cases heq : o = it
+        · left; subst heq
+          simp [h1]
+        · right; exact ⟨h1, by omega, h3, by omega⟩
+    · simp only [List.not_mem_nil, false_iff]
+      omega
+
+theorem getInstrs_lower (offs : List Nat) (e : Nat) :
+    ∀ (f it o : Nat), o ∈ getInstrs offs f it e → it ≤ o := by
+  intro f
+  induction f with
+  | zero => intro it o h; simp [getInstrs] at h
+  | succ f ih =>
+    intro it o h
+    unfold getInstrs at h
+    split at h
+    · rw [List.mem_append] at h
+      rcases h with h | h
+      · split at h
+        · simp at h; omega
+        · simp at h
+      · have := ih _ _ h; omega
+    · simp at h
+
+/-- Strictly increasing: no instruction is returned twice. -/
+theorem getInstrs_sorted (offs : List Nat) (e : Nat) :
+    ∀ (f it : Nat), (getInstrs offs f it e).Pairwise (· < ·) := by
+  intro f
+  induction f with
+  | zero => intro it; simp [getInstrs]
+  | succ f ih =>
+    intro it
+    unfold getInstrs
+    split
+    · rw [List.pairwise_append]
+      refine ⟨by split <;> simp, ih _, ?_⟩
+      intro a ha b hb
+      have := getInstrs_lower offs e f (it + 2) b hb
+      split at ha
+      · simp at ha; omega
+      · simp at ha
+    · simp
+
+/-- **`get_instructions` returns exactly the instructions of the block's range** (even offsets, as
+    CPython's are): membership is "known to the map and inside `[begin, end)`". -/
+theorem getInstructions_spec (offs : List Nat) (b e o : Nat) (hb : b % 2 = 0)
+    (heven : ∀ x ∈ offs, x % 2 = 0) :
+    o ∈ getInstructions offs b e ↔ o ∈ offs ∧ b ≤ o ∧ o < e := by
+  unfold getInstructions
+  rw [mem_getInstrs offs e (e - b + 1) b o (by omega)]
+  constructor
+  · rintro ⟨h1, h2, h3, _⟩; exact ⟨h1, h2, h3⟩
+  · rintro ⟨h1, h2, h3⟩
+    have := heven o h1
+    exact ⟨h1, h2, h3, by omega⟩
+
+example : getInstructions [0, 2, 4, 6, 8, 10] 4 8 = [4, 6] := by decide
+example : getInstructions [0, 2, 8, 10] 2 10 = [2, 8] := by decide  -- inline-cache gap skipped
+
 end Scfg.C09
